@@ -116,11 +116,15 @@ class ClosedWorld:
       if st.exc is None:
         self.issue(st, 'Any', 'bare re-raise lets the original exception escape')
         return
-      cls = dotted(st.exc.func) if isinstance(st.exc, ast.Call) else dotted(st.exc)
-      cls = (cls or '?').split('.')[-1]
+      from . import astutil as _U
+      cls, via = _U.raised_class(self.fi.module, st.exc)
       if isinstance(st.exc, ast.Call):
         for a in st.exc.args:
           self.expr(a)
+      if via is not None:
+        # the error object is built by a constructor helper of the class: what is raised is an instance of the class, but
+        # the helper's own body (formatting, table lookups) runs while the error is being made and is not analysed here
+        self.issue(st, 'Any', 'the error is built by %s.%s(...), whose body is not analysed for exceptions of its own' % (cls, via))
       if cls not in self.allowed:
         self.issue(st, cls, 'raises %s, which is not among the allowed classes %s' % (cls, sorted(self.allowed)), positive=True)
     elif isinstance(st, ast.Return):
